@@ -17,20 +17,26 @@ Theorem search_decides_MatchString : forall r t, search r t = true <-> Search r 
 Proof. exact search_correct. Qed.
 Print Assumptions search_decides_MatchString.
 
-(** Any number of patterns (one, two, many), every path: the set matches iff some pattern matches the whole path.
-    (Zero patterns: see the next theorem; then only the empty path is special.) *)
+(** Any number of patterns (none, one, two, many), every path, the empty one included: the set matches iff some
+    pattern matches the whole path. *)
 Theorem glob_set_matches_iff : forall gs r p,
   Forall ascii gs -> ascii p ->
   compile gs = Some r ->
-  gs <> [] \/ p <> [] ->
   search r p = existsb (fun g => glob_match g p) gs.
 Proof. intros gs r p _ _. exact (glob_set_matches gs r p). Qed.
 Print Assumptions glob_set_matches_iff.
 
-(** The empty pattern list compiles to ^(?s:)$, which matches the empty path and nothing else. *)
-Theorem compile_nil_matches_only_empty : forall r p, compile [] = Some r -> search r p = isnil p.
+(** In particular the empty pattern list compiles to ^(?s:[^\x00-\x{10FFFF}])$ -- the empty character class -- which
+    matches nothing, not even the empty path (since fix d795852; before it the list compiled to ^(?s:)$, which matched
+    the empty path). *)
+Theorem compile_nil_matches_nothing : forall r p, compile [] = Some r -> search r p = false.
 Proof. intros r p. exact (compile_nil_search p r). Qed.
-Print Assumptions compile_nil_matches_only_empty.
+Print Assumptions compile_nil_matches_nothing.
+
+Example compile_nil_text :
+  option_map print (compile []) = Some [94;40;63;115;58;91;94;92;120;48;48;45;92;120;123;49;48;70;70;70;70;125;93;41;36]
+  /\ option_map (fun r => search r []) (compile []) = Some false.
+Proof. vm_compute. auto. Qed.
 
 (** Compilation fails exactly when some pattern has a backslash that is last or not followed by \ * ? [ ]. *)
 Theorem compile_fails_iff : forall gs,
@@ -51,12 +57,11 @@ Theorem load_ignore_fails_iff : forall ig,
 Proof. exact load_ignore_fails. Qed.
 Print Assumptions load_ignore_fails_iff.
 
-(** glob(include, exclude) returns exactly the walked paths matching some include and no exclude pattern
-    (walked paths are never empty). *)
+(** glob(include, exclude) returns exactly the walked paths matching some include and no exclude pattern. *)
 Theorem glob_selects_exactly : forall inc exc paths l,
   Forall ascii inc -> Forall ascii exc -> Forall ascii paths ->
   glob_select inc exc paths = Some l ->
-  forall p, p <> [] ->
+  forall p,
     (In p l <-> In p paths /\ existsb (fun g => glob_match g p) inc = true
                            /\ existsb (fun g => glob_match g p) exc = false).
 Proof. intros inc exc paths l _ _ _. exact (glob_select_spec inc exc paths l). Qed.
@@ -98,7 +103,7 @@ Print Assumptions load_project_fails_iff.
 Theorem glob_walk_selects_exactly : forall inc exc t l,
   Forall ascii inc -> Forall ascii exc -> (forall p way, In (p, way) (files_below [] [] t) -> ascii p) ->
   glob_builtin inc exc t = Some l ->
-  forall p, p <> [] ->
+  forall p,
     (In p l <-> (exists way, In (p, way) (files_below [] [] t) /\ ~ In dawn_build way)
                 /\ matches_some inc p = true /\ matches_some exc p = false).
 Proof. intros inc exc t l _ _ _. exact (glob_builtin_spec inc exc t l). Qed.
@@ -108,7 +113,7 @@ Print Assumptions glob_walk_selects_exactly.
 Theorem os_glob_selects_exactly : forall inc exc t l,
   Forall ascii inc -> Forall ascii exc -> Forall ascii (walk_all [] t) ->
   os_glob inc exc t = Some l ->
-  forall p, p <> [] ->
+  forall p,
     (In p l <-> In p (walk_all [] t) /\ matches_some inc p = true /\ matches_some exc p = false).
 Proof. intros inc exc t l _ _ _. exact (os_glob_spec inc exc t l). Qed.
 Print Assumptions os_glob_selects_exactly.
